@@ -146,7 +146,7 @@ class Index:
                 else:
                     # re-wrap the (unchanged) tree: class infos are rebuilt because base
                     # resolution may change with the overlay
-                    self._add_module(rel, mod.source, tree=mod.tree)
+                    self._add_module(rel, mod.source, tree=mod.tree, reuse=mod)
             for rel in overlay:
                 if rel not in self.modules:
                     self._add_module(rel, overlay[rel])
@@ -166,14 +166,17 @@ class Index:
         self._link()
 
     # ------------------------------------------------------------------ build
-    def _add_module(self, rel: str, src: str, tree: ast.Module | None = None) -> None:
+    def _add_module(self, rel: str, src: str, tree: ast.Module | None = None, reuse: ModuleInfo | None = None) -> None:
         if tree is None:
             try:
                 tree = ast.parse(src, filename=rel)
             except SyntaxError as e:
                 raise AnalysisError(f"cannot parse {rel}: {e}") from e
         mod = ModuleInfo(relpath=rel, modname=_modname(rel), tree=tree, source=src)
-        mod.imports = _collect_imports(tree, mod.modname, rel.endswith("__init__.py"))
+        if reuse is not None:
+            mod.imports = reuse.imports
+        else:
+            mod.imports = _collect_imports(tree, mod.modname, rel.endswith("__init__.py"))
         for stmt in tree.body:
             self._collect_top(stmt, mod)
         self.modules[rel] = mod
